@@ -39,6 +39,8 @@ Definition MSG_GENERATED_BY := 22.
 Definition MSG_DATE := 23.
 Definition MSG_NROWS := 24.
 Definition MSG_NCOLS := 25.
+Definition MSG_NOT_LIST := 26.            (* 'rows' / 'columns' is not a list: axis *)
+Definition MSG_DATA_NOT_LIST := 27.
 
 (* class attributes, table_validator.py:65-77 *)
 Definition TABLE_TYPES : list str :=
@@ -176,8 +178,10 @@ Definition valid_axis (axis : Z) (key : str) (j : json) : result status :=
   ty <- py_get j (K "type") ;;
   _ <- py_lower (if is_null ty then JStr [] else ty) ;;
   rs <- py_getitem j key ;;
-  recs <- py_iter rs ;;
-  axis_loop axis 0 recs [].
+  match rs with
+  | JArr recs => axis_loop axis 0 recs []
+  | _ => ROk (Some [MSG_NOT_LIST; axis])
+  end.
 Definition valid_rows := valid_axis 0 (K "rows").
 Definition valid_columns := valid_axis 1 (K "columns").
 
@@ -196,10 +200,10 @@ Definition element_dtype (j : json) : result etype :=
   | None => RErr E_KEY
   end.
 
-(* isinstance(val, dtype): bool is a subclass of int *)
+(* not isinstance(val, bool) and isinstance(val, dtype) *)
 Definition py_isinstance (v : json) (t : etype) : bool :=
   match t, v with
-  | TInt, JInt _ | TInt, JBool _ => true
+  | TInt, JInt _ => true
   | TFloat, JFlt _ => true
   | TStr, JStr _ => true
   | _, _ => false
@@ -276,6 +280,8 @@ Definition valid_dense_data (j : json) : result status :=
 
 (* _valid_data, 627-634 *)
 Definition valid_data (j : json) : result status :=
+  d <- py_getitem j (K "data") ;;
+  if negb (match d with JArr _ => true | _ => false end) then ROk (Some [MSG_DATA_NOT_LIST]) else
   mt <- py_getitem j (K "matrix_type") ;;
   l <- py_lower mt ;;
   if str_eqb l (K "sparse") then valid_sparse_data j
@@ -408,6 +414,7 @@ Definition HMSG_VERSION := 111.     (* "Table indicates it is version ..." *)
 Definition HMSG_MD := 112.          (* metadata complaint of _valid_hdf5_metadata_v210: which *)
 Definition HMSG_FORMAT_VERSION := 113.
 Definition HMSG_NNZ := 114.         (* 0 not an integer, 1 negative *)
+Definition HMSG_EMPTY_ID := 115.    (* axis *)
 
 (* attribute validators on the attribute kinds h5py returns for files written by to_hdf5 and
    for the mutants of the harness; other kinds are E_UNMODELLED *)
@@ -504,13 +511,22 @@ Definition node_len (n : h5node) : nat :=
   | HEmpty => 0
   end.
 
-(* _valid_hdf5_ids, 239-248 *)
+(* _valid_hdf5_ids: the first ID that is empty or was met before *)
+Fixpoint ids_loop (ax : Z) (l seen : list str) : list msg :=
+  match l with
+  | [] => []
+  | s :: t => match s with
+              | [] => [[HMSG_EMPTY_ID; ax]]
+              | _ => if str_mem s seen then [[HMSG_DUP; ax]] else ids_loop ax t (s :: seen)
+              end
+  end.
 Definition hv_ids (f : h5file) (ax : Z) : result (list msg) :=
   match hfind (h_root f) (P2 (axis_name ax) "ids") with
   | None => ROk []
   | Some (HGroup _) => RErr E_TYPE
-  | Some (HStrs l) => ROk (if str_dup l then [[HMSG_DUP; ax]] else [])
-  | Some (HInts l) | Some (HFlts l) => ROk (if zdup l then [[HMSG_DUP; ax]] else [])
+  | Some (HStrs l) => ROk (ids_loop ax l [])
+  | Some (HInts l) | Some (HFlts l) =>
+      match l with [] => ROk [] | _ => RErr E_TYPE end          (* len() of a number *)
   | Some HEmpty => ROk []
   end.
 
@@ -522,25 +538,39 @@ Fixpoint decreasing (l : list Z) : bool :=
 
 (* _valid_hdf5_matrix, 250-283; n_vectors, n_positions from the shape, times SCALE (h5py
    hands back the shape as the array it was stored as, possibly of floats) *)
+Definition int_kind (n : h5node) : result bool :=
+  match n with HInts _ => ROk true | HGroup _ => RErr E_ATTR | _ => ROk false end.
 Definition hv_matrix (f : h5file) (ax : Z) (n_vec n_pos : Z) : result (list msg) :=
   let name := axis_name ax in
   match hfind (h_root f) (P3 name "matrix" "data"), hfind (h_root f) (P3 name "matrix" "indices"),
         hfind (h_root f) (P3 name "matrix" "indptr") with
-  | Some d, Some (HInts indices), Some (HInts indptr) =>
-      let n_data := Z.of_nat (node_len d) in
-      if negb (Z.of_nat (length indices) =? n_data) then ROk [[HMSG_MATRIX; ax; 0]]
-      else if negb (SCALE * Z.of_nat (length indptr) =? n_vec + SCALE) then ROk [[HMSG_MATRIX; ax; 1]]
-      else
-        match indptr with
-        | [] => RErr E_INDEX
-        | p0 :: _ =>
-            if negb (p0 =? 0) || negb (last indptr 0 =? n_data) then ROk [[HMSG_MATRIX; ax; 2]]
-            else if decreasing indptr then ROk [[HMSG_MATRIX; ax; 3]]
-            else if (0 <? n_data) && existsb (fun i => (i <? 0) || (n_pos <=? SCALE * i)) indices
-                 then ROk [[HMSG_MATRIX; ax; 4]]
-                 else ROk []
-        end
-  | Some _, Some _, Some _ => RErr E_UNMODELLED
+  | Some d, Some ni, Some np =>
+      match d with
+      | HGroup _ => RErr E_ATTR                       (* a group has no dtype *)
+      | HStrs _ => ROk [[HMSG_MATRIX; ax; 5]]
+      | _ =>
+          ki <- int_kind ni ;;
+          if negb ki then ROk [[HMSG_MATRIX; ax; 6]] else
+          kp <- int_kind np ;;
+          if negb kp then ROk [[HMSG_MATRIX; ax; 7]] else
+          match ni, np with
+          | HInts indices, HInts indptr =>
+              let n_data := Z.of_nat (node_len d) in
+              if negb (Z.of_nat (length indices) =? n_data) then ROk [[HMSG_MATRIX; ax; 0]]
+              else if negb (SCALE * Z.of_nat (length indptr) =? n_vec + SCALE) then ROk [[HMSG_MATRIX; ax; 1]]
+              else
+                match indptr with
+                | [] => RErr E_INDEX
+                | p0 :: _ =>
+                    if negb (p0 =? 0) || negb (last indptr 0 =? n_data) then ROk [[HMSG_MATRIX; ax; 2]]
+                    else if decreasing indptr then ROk [[HMSG_MATRIX; ax; 3]]
+                    else if (0 <? n_data) && existsb (fun i => (i <? 0) || (n_pos <=? SCALE * i)) indices
+                         then ROk [[HMSG_MATRIX; ax; 4]]
+                         else ROk []
+                end
+          | _, _ => ROk []
+          end
+      end
   | _, _, _ => ROk []                      (* not all three datasets present: the check is skipped *)
   end.
 
@@ -582,9 +612,8 @@ Definition shape_part (f : h5file) (n_obs n_samp : Z) : result (list msg) :=
   | _, _ => RErr E_TYPE              (* a message is appended, then len(None) raises *)
   end.
 
-(* _validate_hdf5, 119-237 with format_version = '2.1' (the default of run).
-   Result: (valid_table, report lines).  Note that the lines appended after the
-   'format-version' test (216-235) do not clear valid_table. *)
+(* _validate_hdf5, 119-241 with format_version = '2.1' (the default of run).
+   Result: (valid_table, report lines); every report line clears valid_table. *)
 Definition validate_hdf5_report (f : h5file) : result (bool * list msg) :=
   a <- run_attrs f H_REQUIRED_ATTRS 0 ;;
   let g := missing_paths f HMSG_GROUP H_REQUIRED_GROUPS 0 in
@@ -605,8 +634,8 @@ Definition validate_hdf5_report (f : h5file) : result (bool * list msg) :=
        | Some (AInts _) => ROk [[HMSG_VERSION]]
        | Some _ => RErr E_UNMODELLED
        end ;;
-  let decisive := a ++ g ++ d ++ i0 ++ i1 ++ s in
-  ROk (match decisive with [] => true | _ => false end, decisive ++ v).
+  let lines := a ++ g ++ d ++ i0 ++ i1 ++ s ++ v in
+  ROk (match lines with [] => true | _ => false end, lines).
 
 Definition validate_hdf5 (f : h5file) : bool :=
   match validate_hdf5_report f with ROk (true, _) => true | _ => false end.
